@@ -288,7 +288,11 @@ def corpus():
     gb = '[Tabulation]\ntarget : GULP\n[Pair]\nAl-Al : as.constant 2.0\n'
     c4 = {'kind': 'history', 'models': [{'text': ga, 'npots': 1}, {'text': gb, 'npots': 1}], 'seed': 3,
           'ops': [['build', 0], ['write', 0], ['build', 1], ['write', 1], ['eval', 1, 0, 1], ['write', 0]]}
-    return [c1, c2, c3, c4]
+    # formulas that ASSIGN to their own parameters / to r (in-place unit conversions): the symbol table must be re-bound on every call
+    at = ('[Tabulation]\ntarget : LAMMPS\nnr : 6\ncutoff : 3.0\n[Potential-Form]\nbm(r, A, b) = A := A*2.0; r := r/0.5; A*exp(-b*r)\nlin(r, c) = c := c + 1.0; c*r\n'
+          '[Pair]\nA-A : bm 3.0 0.5\nA-B : lin 2.0\nB-B : sum(bm 1.0 0.25, lin 0.5)\n')
+    c5 = {'kind': 'assign', 'text': at, 'history': [[0, 1.0], [0, 1.0], [1, 2.0], [0, 2.0], [0, 1.0], [1, 2.0], [2, 1.5], [1, 0.5], [2, 1.5], [0, 2.0]]}
+    return [c1, c2, c3, c4, c5]
 
 def correspond(ctx):
     rng = ctx['rng']
@@ -329,6 +333,21 @@ def correspond(ctx):
 def oracle(case):
     """the statement on the implementation alone"""
     k = case['kind']
+    if k == 'assign':
+        from atsim.potentials.config import Configuration
+        try:
+            tab = Configuration().read(io.StringIO(case['text'])); seen = {}; fails = []
+            for (i, r) in case['history']:
+                v = tab.potentials[i].energy(r)
+                if (i, r) in seen and seen[(i, r)] != v: fails.append('potential %d at r = %r gave %r earlier and %r later (its formula assigns to its parameters)' % (i, r, seen[(i, r)], v))
+                seen.setdefault((i, r), v)
+            for (i, r), v in sorted(seen.items())[:4]:
+                w = Configuration().read(io.StringIO(case['text'])).potentials[i].energy(r)
+                if w != v: fails.append('potential %d at r = %r: %r within the history, %r as the first evaluation of a newly built model' % (i, r, v, w))
+            a = write_tab(tab); b = write_tab(tab)
+            if a != b: fails.append('writing the same tabulation twice gives different bytes')
+        except Exception as e: return ['a model whose formulas assign to their parameters raised %s: %s' % (type(e).__name__, str(e)[:120])]
+        return fails[:4]
     if k == 'seeds':
         w = check_seeds(case); return [w] if w else []
     if k == 'history':
